@@ -234,6 +234,50 @@ func c06Hist(proto string, f []string) string {
 	return strings.Join(parts, " | ") + " ; P=" + inst.peer()
 }
 
+// two objects of the same protocol alive at the same time, with different configurations; every op is prefixed
+// with the index (0/1) of the object it goes to.  "hh <proto> <cfg0> | <cfg1> | <ops>"
+func c06Hist2(f []string) string {
+	proto := f[0]
+	rest := strings.Join(f[1:], " ")
+	secs := strings.Split(rest, " | ")
+	if len(secs) != 3 {
+		return "badline"
+	}
+	insts := []c06Inst{c06Build(proto, strings.Fields(secs[0]), Callbacks{}), c06Build(proto, strings.Fields(secs[1]), Callbacks{})}
+	var parts []string
+	for _, op := range strings.Fields(secs[2]) {
+		inst := insts[op[0]-'0']
+		arg := op[2:]
+		switch op[1] {
+		case 'q':
+			ack, nak, rej := inst.h.ProcessConfReq(c06Opts(arg))
+			parts = append(parts, "A="+c06ShowOpts(ack, nil)+" N="+c06ShowOpts(nak, inst.sugg)+" R="+c06ShowOpts(rej, nil))
+			continue
+		case 'a':
+			inst.h.ProcessConfAck(c06Opts(arg))
+		case 'n':
+			inst.h.ProcessConfNak(c06Opts(arg))
+		case 'j':
+			inst.h.ProcessConfRej(c06Opts(arg))
+		case 'P':
+			inst.h.(*IPCP).SetPeerAddress(c06IP(arg))
+		case 'D':
+			d := strings.Split(arg, "/")
+			inst.h.(*IPCP).SetDNS(c06IP(d[0]), c06IP(d[1]))
+		case 'M':
+			m, _ := strconv.ParseUint(arg, 10, 32)
+			inst.h.(*LCP).SetMagic(uint32(m))
+		default:
+			return "badop"
+		}
+		if proto == "6" {
+			*inst.local = inst.h.(*IPv6CP).LocalConfig().InterfaceID
+		}
+		parts = append(parts, "B="+c06ShowOpts(inst.h.BuildConfReq(), nil))
+	}
+	return strings.Join(parts, " | ") + " ; P=" + insts[0].peer() + " ; P=" + insts[1].peer()
+}
+
 func c06Fsm(f []string) string {
 	var acts []string
 	var inst c06Inst
@@ -325,6 +369,8 @@ func c06Case(line string) (out string) {
 		return c06Hist("l", f[1:])
 	case "h6":
 		return c06Hist("6", f[1:])
+	case "hh":
+		return c06Hist2(f[1:])
 	case "fsm":
 		return c06Fsm(f[1:])
 	}
